@@ -82,7 +82,12 @@ def check_records(ctx, recs, search_seed=0):
     reqs, metas = [], []
     for r in recs:
         if not r["ok"]:
-            ctx.stat(("rejected_" if r["err_kind"] == "ValueError" else "compile_crash_") + str(r["err_kind"])); continue
+            ctx.stat(("rejected_" if r["err_kind"] == "ValueError" else "compile_crash_") + str(r["err_kind"]))
+            # G1 is legal by construction (the unchanged compiler accepts all of it): a well-formed Einsum that yields no program
+            ctx.ob(False)
+            ctx.violation(dict(kind="legal-specification-rejected", yaml=r["yaml"], yaml_text=specs.dump_yaml(r["yaml"]), hashseed=r["hashseed"],
+                               reason="a well-formed Einsum with a permutation as loop order yields no program (%s: %s)" % (r["err_kind"], str(r.get("err_msg"))[:200])), True)
+            continue
         case = r["case"]
         ctx.case([r["text"]], nontrivial="for " in r["text"])
         for t in set(case["tags"]):
